@@ -823,6 +823,16 @@ pub fn gen_c18(ctx: &Ctx, rng: &mut Rng, out: &mut Vec<String>) {
             out.push(format!("io.rdtext\t{}\t{}\tN", hex(&tb), nats(&s)));
         }
         for k in 0..=tb.len() { if t || k % 2 == 0 || k + 3 > tb.len() { out.push(format!("io.rdtext\t{}\t{}\t{k}", hex(&tb), nats(&sched(rng, tb.len())))); } }
+        // the same with a header line the reader refuses (a letter inside the shape; no closing bracket): the header is parsed before the
+        // rest is read, so a failure behind the header line is never reached, one inside it is
+        for variant in 0..2 {
+            let mut bad = tb.clone();
+            if let Some(pos) = bad.iter().position(|b| *b == b'<') { if variant == 0 { bad[pos + 1] = b'x'; } else if let Some(gt) = bad.iter().position(|b| *b == b'>') { bad.remove(gt); } }
+            for k in 0..=bad.len() { if t || fi < 2 || k % 3 == 0 || k < 24 { out.push(format!("io.rdtext\t{}\t{}\t{k}", hex(&bad), nats(&sched(rng, bad.len())))); } }
+            out.push(format!("io.rdtext\t{}\t{}\tN", hex(&bad), nats(&sched(rng, bad.len()))));
+        }
+        // … and with a value the reader refuses behind a good header
+        { let mut bad = tb.clone(); let l = bad.len(); if l > 2 { bad[l - 2] = b'z'; } for k in 0..=bad.len() { if t || k % 4 == 0 || k + 4 > l { out.push(format!("io.rdtext\t{}\t{}\t{k}", hex(&bad), nats(&sched(rng, bad.len())))); } } }
         // writers: short writes (1..7 bytes per call) and failure at every offset
         for fmt in ["npy", "text"] {
             let p = rng.range(0, 9);
